@@ -15,6 +15,7 @@ from rules.core import afc, pat, atomics
 from rules.core.facts import Operand, Place
 
 CRATES = ["aranya_fast_channels"]
+THOROUGH_CONFIGS = ["cas"]   # thorough tier: the same rules on the cas_mutex build
 
 
 def run(F, rep, tier):
